@@ -68,12 +68,11 @@ theorem create_A_eq (b : Bool) (σ : St) (id : Nat) (cs : Int) (hcs : 0 < cs) (h
        epoch := σ.now
        used := id :: σ.used
        live := id :: σ.live
-       badArg := σ.badArg || decide (cs < 0)
        inCrit := false
        pc := .idle
        log := .constructed id σ.now :: .setitimer (Time.ofCs cs).toUs :: .born id σ.now cs :: σ.log } := by
   obtain ⟨_, _, hnz, hok⟩ := ofCs_facts hcs
-  have hne : cs ≠ 0 := by omega
+  have hne : ¬ cs ≤ 0 := by omega
   simp [steps, create, step, hpc, hf, hr, hp, hnz, hok, hne, insertEv]
 
 theorem clock_create_A {σ : St} (h : Clock σ) (id : Nat) (cs : Int) (hcs : 0 < cs) (hpc : σ.pc = .idle)
